@@ -2,6 +2,7 @@ import NomtModel.Driver.Parse
 import NomtModel.Store.ImgCheck
 import NomtModel.Store.ImgMerkle
 import NomtModel.Store.Placement
+import NomtModel.Store.TraceOrder
 /-!
 Driver mode `image` (C16 / C19): every stdin line `check <dir> <expected-file>` makes the driver read
 the files of the nomt directory `<dir>` itself, decode them with the Lean decoders of
@@ -142,8 +143,22 @@ def imageLine (line : String) : IO String := do
       | none => pure "bad trace: not utf-8"
       | some t =>
         match checkPlacement img (parseIoTrace t) with
-        | .ok st => pure s!"ok pre_meta_events={st.preMetaEvents} ln_writes={st.lnWrites} bbn_writes={st.bbnWrites} to_free_pages={st.toFreePages} beyond_frontier={st.beyondFrontier} meta_write_seen={st.sawMeta}"
+        | .ok st =>
+          -- C04 / C03: the fsync discipline of the same operation (Begin and End lines)
+          match checkOrder (parseIoTrace2 t) with
+          | .error e => pure s!"bad {e}"
+          | .ok o =>
+            pure s!"ok pre_meta_events={st.preMetaEvents} ln_writes={st.lnWrites} bbn_writes={st.bbnWrites} to_free_pages={st.toFreePages} beyond_frontier={st.beyondFrontier} meta_write_seen={st.sawMeta} order_effects={o.effects} order_fsyncs={o.fsyncs} durable_at_switch={o.durableAtSwitch} overlapped={o.overlapped} ht_writes={o.htWrites} post_prunes={o.postPrunes} left_volatile={o.pend.length} switch_durable={if o.phase == 2 then 1 else 0}"
         | .error e => pure s!"bad placement: {e}"
+  -- C04 / C03: `recovery <trace-file>` — the Begin / End events `Nomt::open` issued while recovering a crashed directory
+  | ["recovery", f] =>
+    let some tb ← readOr f | return "bad io: cannot read the recovery trace"
+    match String.fromUTF8? tb with
+    | none => pure "bad trace: not utf-8"
+    | some t =>
+      match checkRecoveryOrder (parseIoTrace2 t) with
+      | .error e => pure s!"bad {e}"
+      | .ok o => pure s!"ok recovery_effects={o.effects} recovery_fsyncs={o.fsyncs} redone_ht_writes={o.htWrites} recovery_unlinks={o.postPrunes} recovery_left_volatile={o.pend.length}"
   | _ => pure "bad unknown command"
 
 partial def imageLoop (h out : IO.FS.Stream) : IO Unit := do
